@@ -227,8 +227,8 @@ def check_cov(model, cov, F, step, what="covariance", worst=None):
                         step=step, rel=rel, target=F)
     asym = float(np.max(np.abs(C - C.T) / S))
     if worst is not None:
-        worst[0] = max(worst[0], asym / 1e-12)
-    if asym > 1e-12:
+        worst[0] = max(worst[0], asym / 1e-11)
+    if asym > 1e-11:
         raise Violation("cov-asymmetric", f"{what} in {F}: |C - C^T| = {asym:.3g} (scaled) [{where}]", step=step)
     w = np.linalg.eigvalsh((C + C.T) / 2 / S)
     if w[0] < -1e-9 * w[-1]:
@@ -376,5 +376,5 @@ def setup_and_note(shard):
 
 FACETS = [
     Facet("histories", lambda s, t: history(), check_history, setup=setup_and_note, rule=RULE,
-          quick=(16, 200), thorough=(32, 3000)),
+          quick=(16, 200), thorough=(32, 2500)),
 ]
